@@ -6,9 +6,16 @@ from props import _cluster as K
 def run(tier, seed, update_lock=False):
     R = Run('C01', 'proof', tier, seed)
     units = [K.core_unit()] + K.kcenters_units() + K.kmedoids_units(R.excluded())
+    from pyvc.runner import Unit
+    from contracts import estimators as ES
+    est = Unit('estimator-fit', ES.registry(), keys=[k for k in ES.registry() if k.endswith('.fit')],
+               mutants=[('radius-from-the-cluster-count', ES.KC, "            dist_cutoff=self.cluster_radius,", "            dist_cutoff=self.n_clusters,"),
+                        ('sweeps-from-the-cluster-count', ES.HY, "            n_iters=self.kmedoids_updates,", "            n_iters=self.n_clusters,"),
+                        ('supplied-state-dropped', ES.KM, "            assignments=assignments,\n            distances=distances,", "            assignments=None,\n            distances=None,")])
+    units.append(est)
     for u in units:
         R.prove(u)
-    for u in units[:2] + units[9:11]:
+    for u in units[:2] + units[9:11] + [est]:
         R.canary_check(u)
     R.lemma('MsqMonotone.lean', 'mean of squares is monotone on point-wise ordered non-negative arrays (rejects proposals that duplicate another centre)')
     R.bounded('cluster.py', 'run-time contracts on the real k-centers / assignment code',
